@@ -247,6 +247,12 @@ func freshResult(g *ssa.Function, depth int) bool {
 			if k, isK := s.(*ssa.Const); isK && k.Value == nil {
 				continue
 			}
+			// (the first result of a `(value, error)` constructor)
+			if ex, isEx := s.(*ssa.Extract); isEx {
+				if ec, isC := ex.Tuple.(*ssa.Call); isC {
+					s = ec
+				}
+			}
 			if call, isCall := s.(*ssa.Call); isCall {
 				if b, isB := call.Call.Value.(*ssa.Builtin); isB && b.Name() == "append" {
 					continue
@@ -1456,6 +1462,11 @@ func runDropEmpty(c *core.Ctx) {
 	n := 0
 	for _, fn := range libFuncs(c) {
 		if len(fn.Blocks) == 0 {
+			continue
+		}
+		// (the merge state's per-request slot arrays are not sets shared with other parties: an entry is one
+		// request's replies and is released whole — SLOT-RELEASE / REQ-COUPD decide when)
+		if r := fn.Signature.Recv(); r != nil && isMergeState(r.Type()) {
 			continue
 		}
 		for _, ci := range calls(fn) {
